@@ -58,6 +58,9 @@ type Ctx struct {
 	SecretInts int
 	Public     map[int]bool // Publicity(): leaf values keyed by -id
 	HandleBase int
+	// SecretBase: the handles (= underlying int values) of objects NOT declared safe, when SecretInts != 0; it is
+	// this context's own, so that those values differ between the two instantiations of a C02 pair
+	SecretBase int
 	u8         []uint8
 	byID       map[int]*Term
 	vals       map[int]interface{}
@@ -105,7 +108,8 @@ func NewCtx(d Dict) *Ctx {
 	if d == nil {
 		d = PlainDict
 	}
-	return &Ctx{Dict: d, byID: map[int]*Term{}, vals: map[int]interface{}{}, HandleBase: int(atomic.AddInt64(&nextBase, 1)) * 1000}
+	base := int(atomic.AddInt64(&nextBase, 1)) * 1000
+	return &Ctx{Dict: d, byID: map[int]*Term{}, vals: map[int]interface{}{}, HandleBase: base, SecretBase: base}
 }
 
 // NewCtxLike shares the object handles of a released context (so that public
@@ -474,6 +478,9 @@ func (c *Ctx) build(t *Term) interface{} {
 			return objMakers[reg][mask](0, true)
 		}
 		h := c.HandleBase + t.ID%1000
+		if c.SecretInts != 0 && !c.Public[-t.ID] {
+			h = c.SecretBase + t.ID%1000 // the value of an object that is not declared safe is a secret too
+		}
 		specs.Store(h, &objSpec{c, t})
 		return objMakers[reg][mask](h, false)
 	case "slice":
